@@ -1,0 +1,22 @@
+//go:build verif
+
+package core
+
+// Contracts for codec.go, codec_c.go and codec_s.go, read by the rcvc verifier in /verif (comment-only; adds no code).
+
+//@ use resp
+
+//@ func parseLen
+//@   props C08 C12
+//@   flags overflow
+//@   modifies nothing
+//@   ensures[minus1] isminus1(p) ==> result0 == -1 && result1 == nil
+//@   ensures[ok] (result1 == nil && !isminus1(p)) ==> canon(p) && result0 == dec(p, len(p)) && result0 >= 0
+//@   ensures[invalid] (len(p) >= 1 && !isminus1(p) && !canon(p)) ==> result1 == codec.ErrInvalidResp
+//@   ensures[empty] len(p) < 1 ==> result1 == codec.ErrInvalidResp
+//@   ensures[err] result1 != nil ==> result0 == -1
+//@   ensures[total] (len(p) >= 1 && canon(p)) ==> result1 == nil
+//@   loop 0
+//@     invariant 0 <= rangeindex + 1 && rangeindex + 1 <= len(p)
+//@     invariant n == dec(p, rangeindex + 1) && alldigits(p, rangeindex + 1)
+//@     invariant 0 <= n && n < pow10(rangeindex + 1)
